@@ -15,6 +15,6 @@ prop("C04", level="exploration",
           "(random/all-ones/zero/sparse limbs, powers of two +-1); distinct = distinct value or text; f16 stage: all 65536 half patterns; f32 stage: blocks of 65536 consecutive float32 bit patterns",
      assumptions=["glibc strtod and snprintf(%.{p}[efg]) are correctly rounded", "the schoolbook Big oracle in drivers/c04_numbers.cpp is correct (cross-checked against __int128 every run)",
                   "right shift of a negative big integer may truncate or floor (both accepted)"],
-     stages=[dict(name="gen", driver="c04_numbers", flagset="asan", quick=600000, thorough=60000000),
+     stages=[dict(name="gen", driver="c04_numbers", flagset="asan", quick=600000, thorough=12000000),
              dict(name="f16", driver="c04_numbers", flagset="asan", quick=1, thorough=1, args=["--mode", "f16"], workers_quick=1, workers_thorough=1),
              dict(name="f32", driver="c04_numbers", flagset="asan", quick=256, thorough=65536, args=["--mode", "f32"], args_thorough=["--exhaustive", "1"])])
